@@ -120,7 +120,12 @@ Inductive op :=
     (* initGraphCallbacks / initNodeCallbacks on the parent's context (None = a context
        without manager); opts = the handler lists of the options that match *)
 | OReuse (parent : ukey) (new : ukey) (inf : info)       (* ReuseHandlers (tool calls) *)
-| OOn (u : ukey) (t : timing).                           (* On(ctx_u, _, handle, t) *)
+| OOn (u : ukey) (t : timing)                            (* On(ctx_u, _, handle, t) *)
+| OAlias (src : ukey) (new : ukey) (inf : info) (lo hi : nat).
+    (* InitCallbacks(bg, info, s[lo:hi]...) where s is the slice held by unit src's manager
+       (for a unit made by ORaw: the caller's own slice): a variadic call passes the slice
+       header on, so the two managers share one backing array and the new one's spare
+       capacity overlaps the elements of src beyond hi *)
 
 Record state := { st_heap : heap; st_ctxs : list (ukey * ctx); st_log : list event; st_bad : bool }.
 Definition state0 : state := {| st_heap := []; st_ctxs := []; st_log := []; st_bad := false |}.
@@ -166,6 +171,16 @@ Definition step (fixed : bool) (w : world) (st : state) (o : op) : state :=
           let '(h1, l) := on_handlers fixed w (st_heap st) m t in
           {| st_heap := h1; st_ctxs := st_ctxs st;
              st_log := st_log st ++ events_of u t (m_info m) l; st_bad := st_bad st |}
+      end
+  | OAlias src new inf lo hi =>
+      match lookup src (st_ctxs st) with
+      | Some (Some m) =>
+          if (lo <=? hi)%nat && (hi <=? len (m_handlers m))%nat then
+            {| st_heap := st_heap st;
+               st_ctxs := (new, new_manager w inf (reslice (m_handlers m) lo hi)) :: st_ctxs st;
+               st_log := st_log st; st_bad := st_bad st |}
+          else set_bad st
+      | _ => set_bad st
       end
   end.
 
@@ -215,6 +230,15 @@ Definition sstep (w : world) (s : sstate) (o : op) : sstate :=
       | Some (Some (l, inf)) =>
           {| ss_ctxs := ss_ctxs s;
              ss_log := ss_log s ++ events_of u t inf (select w t (l ++ w_globals w)); ss_bad := ss_bad s |}
+      end
+  | OAlias src new inf lo hi =>
+      match lookup src (ss_ctxs s) with
+      | Some (Some (l, _)) =>
+          if (lo <=? hi)%nat && (hi <=? List.length l)%nat then
+            {| ss_ctxs := (new, snew w inf (firstn (hi - lo) (skipn lo l))) :: ss_ctxs s;
+               ss_log := ss_log s; ss_bad := ss_bad s |}
+          else sset_bad s
+      | _ => sset_bad s
       end
   end.
 Definition run_spec_from (w : world) (s : sstate) (ops : list op) : sstate := fold_left (sstep w) ops s.
@@ -346,3 +370,14 @@ Definition needs_of (tbl : list (handler * list N)) (x : handler) (t : timing) :
   | None => true
   | Some ts => existsb (N.eqb (timing_code t)) ts
   end.
+
+(* ------------------------------------------------------------------ reading the event log *)
+
+Definition ev_unit (e : event) : ukey := match e with Ev u _ _ _ => u end.
+Definition ev_handler (e : event) : handler := match e with Ev _ x _ _ => x end.
+Definition of_unit (u : ukey) (e : event) : bool := N.eqb (ev_unit e) u.
+
+(* the events a unit with handler list l and run info inf is served at timing t: the handlers
+   of l ++ globals that ask for t, one event per occurrence, start timings in reverse order *)
+Definition served (w : world) (u : ukey) (inf : info) (l : list handler) (t : timing) : list event :=
+  events_of u t inf (select w t (l ++ w_globals w)).
